@@ -74,6 +74,63 @@ def inline_test_temporaries(tree):
     return count
 
 
+def inline_attribute_aliases(tree):
+    """Normalisation: a local bound once, by a top-level statement of its
+    function, to a plain attribute chain of a name that the function never
+    re-binds (``par = self.parameters``, ``opts = molecule.options``) is read
+    as that chain wherever it is used - provided no attribute named in the
+    chain is stored to anywhere in the function.  Rules then see
+    ``self.parameters.desolv_cutoff`` whether or not the author went through a
+    local.  Returns the number of aliases inlined."""
+    import copy
+    count = 0
+    for fn in [n for n in ast.walk(tree) if isinstance(n, (ast.FunctionDef, ast.AsyncFunctionDef))]:
+        stores = {}
+        attr_stores = set()
+        nested_names = set()
+        for n in ast.walk(fn):
+            if isinstance(n, ast.Name) and isinstance(n.ctx, (ast.Store, ast.Del)):
+                stores[n.id] = stores.get(n.id, 0) + 1
+            if isinstance(n, ast.Attribute) and isinstance(n.ctx, (ast.Store, ast.Del)):
+                attr_stores.add(n.attr)
+            if n is not fn and isinstance(n, (ast.FunctionDef, ast.AsyncFunctionDef, ast.Lambda, ast.ClassDef)):
+                for m in ast.walk(n):
+                    if isinstance(m, ast.Name):
+                        nested_names.add(m.id)
+            if isinstance(n, (ast.Global, ast.Nonlocal)):
+                nested_names.update(n.names)
+        i = 0
+        while i < len(fn.body):
+            st = fn.body[i]
+            i += 1
+            if not (isinstance(st, ast.Assign) and len(st.targets) == 1
+                    and isinstance(st.targets[0], ast.Name) and isinstance(st.value, ast.Attribute)):
+                continue
+            name = st.targets[0].id
+            chain, attrs = st.value, []
+            while isinstance(chain, ast.Attribute):
+                attrs.append(chain.attr)
+                chain = chain.value
+            if not isinstance(chain, ast.Name) or stores.get(name) != 1 or name in nested_names \
+                    or stores.get(chain.id, 0) != 0 or chain.id == name or set(attrs) & attr_stores:
+                continue
+            uses = [n for n in ast.walk(fn) if isinstance(n, ast.Name) and n.id == name
+                    and isinstance(n.ctx, ast.Load)]
+            for u in uses:
+                rep = copy.deepcopy(st.value)
+                for sub in ast.walk(rep):
+                    ast.copy_location(sub, u)
+                u.__class__ = ast.Attribute
+                u.__dict__.clear()
+                u.__dict__.update(rep.__dict__)
+            i -= 1
+            del fn.body[i]
+            if not fn.body:
+                fn.body.append(ast.copy_location(ast.Pass(), st))
+            count += 1
+    return count
+
+
 def orient_comparisons(tree):
     """Normalisation: every single ordering comparison is read in its `<` form
     (``a > b`` as ``b < a``, ``a >= b`` as ``b <= a``).  Rules about thresholds
@@ -211,6 +268,7 @@ class Module:
             self.tree = ast.parse(self.src, filename=path)
         except SyntaxError as err:  # a tree that does not compile
             raise AnalysisError('cannot parse {0}: {1}'.format(path, err))
+        self.inlined_aliases = inline_attribute_aliases(self.tree)
         self.inlined_temporaries = inline_test_temporaries(self.tree)
         self.oriented_comparisons = orient_comparisons(self.tree)
         self.positive_branches = positive_branches(self.tree)
